@@ -671,7 +671,7 @@ def evolution_strength_of_connection(A, B=None, epsilon=4.0, k=2,
         for _i in range(nsquare):
             Atilde = Atilde @ Atilde
 
-        JacobiStep = (Id - (1.0 / rho_DinvA) @ Dinv_A).T.tocsr()
+        JacobiStep = (Id - (1.0 / rho_DinvA) * Dinv_A).T.tocsr()
         for _i in range(ninc):
             Atilde = Atilde @ JacobiStep
         del JacobiStep
